@@ -97,6 +97,9 @@ def r03_c(prog: Program, chk: Check) -> None:
 
 
 def run(prog: Program, chk: Check) -> None:
+    from .c04 import early_accept_rule
+
+    early_accept_rule(prog, chk, "R03.d")
     r03_a(prog, chk)
     r03_b(prog, chk)
     r03_c(prog, chk)
